@@ -42,7 +42,7 @@ LOC = ["0", "1", "-1", "2", "1/2", "-3"]
 @st.composite
 def cases(draw, tier="quick"):
     if draw(st.integers(0, 9)) <= 6:
-        profile = draw(st.sampled_from(["discrete", "discrete", "guarded", "mixed"]))
+        profile = draw(st.sampled_from(["discrete", "guarded", "mixed", "mixed"]))
         prog, meta = draw(gen.programs(profile, uninit_ok=False, max_body=3))
         return {"what": "structure", "prog": prog, "iterations": draw(st.integers(1, 3))}
     name = draw(st.sampled_from(["Normal", "Uniform", "Laplace", "DistExp", "Gamma", "Beta", "TruncNormal", "Bernoulli", "DiscreteUniform", "Categorical"]))
@@ -199,6 +199,9 @@ class Patches:
 def oracle_surrogate(name, params):
     if name in ("Normal", "Uniform", "Laplace"):
         return surrogate_points(name, params[0])
+    if name == "Beta" and len(params) == 3:
+        # Beta.sample multiplies the scipy value by the scale parameter: the scripted values 0 and 1 become 0 and scale
+        return [(Fraction(1, 2), Fraction(0)), (Fraction(1, 2), params[2])]
     return surrogate_points(name, Fraction(0))
 
 
